@@ -30,6 +30,7 @@ fn dispatch(args: &common::Args) {
     match args.id.as_str() {
         "C01" => props::c01::main(args),
         "C02" => props::c02::main(args),
+        "C03" => props::c03::main(args),
         "C04" => props::c04::main(args),
         "C05" => props::c05::main(args),
         "C06" => props::c06::main(args),
